@@ -25,8 +25,8 @@ AsFun(s) == [c \in Chunks |-> IF c <= Len(s) THEN s[c] ELSE "-"]
 MonInit == Init /\ l = 1
 
 IsVerifyEv == Ev.ev \in {"VTFinish", "LayerVerify", "Verify"}
-IsReadEv == Ev.ev \in {"Read", "PassRead"}
-ReadVals == IF Ev.ev = "Read" THEN {Ev.v} ELSE {Ev.vals[i] : i \in 1..Len(Ev.vals)} \ {"-"}
+IsReadEv == Ev.ev \in {"Read", "LateRead", "PassRead"}
+ReadVals == IF Ev.ev \in {"Read", "LateRead"} THEN {Ev.v} ELSE {Ev.vals[i] : i \in 1..Len(Ev.vals)} \ {"-"}
 
 MonNext ==
     /\ l <= Len(TraceLog)
@@ -39,7 +39,7 @@ MonNext ==
                  ELSE IF IsReadEv /\ Ev.res = "ok" /\ vmount THEN served \cup ReadVals ELSE served
     /\ cache' = IF Ev.ev = "Reset" THEN [c \in Chunks |-> "-"] ELSE IF Has("cache") THEN AsFun(Ev.cache) ELSE cache
     /\ pf' = IF Ev.ev = "Reset" THEN NoPf ELSE IF Has("pf") THEN AsFun(Ev.pf) ELSE pf
-    /\ last' = IF Ev.ev = "Read" THEN [act |-> "Read", res |-> Ev.res, probe |-> IF Has("probe") THEN Ev.probe ELSE "-"]
+    /\ last' = IF Ev.ev \in {"Read", "LateRead"} THEN [act |-> "Read", res |-> Ev.res, probe |-> IF Has("probe") THEN Ev.probe ELSE "-"]
                ELSE [act |-> Ev.ev]
 
 MonSpec == MonInit /\ [][MonNext]_mvars
